@@ -1143,6 +1143,10 @@ void DOMLSSerializerImpl::processNode(const DOMNode* const nodeToWrite, int leve
 
             if (getFeature(SPLIT_CDATA_SECTIONS_ID))
             {
+                // splitting helps with "]]>" and with characters the
+                // encoding lacks, not with characters XML does not allow
+                ensureValidString(nodeToWrite, nodeValue);
+
                 // it is fairly complicated and we process this
                 // in a separate function.
                 procCdataSection(nodeValue, nodeToWrite);
